@@ -23,8 +23,8 @@ Vals(f) ==
     [] f = "tscset" -> {N, O(-1), O(0), O(1), O(2), O(3), O(4)}
     [] f = "mod"    -> Mods \cup {"notmod"}
     [] f = "nope"   -> BOOLEAN
-    [] f = "blen"   -> {N, O(0), O(GB - 1), O(GB), O(GB + 1), O(2 * GB), O(3 * GB - 1), O(3 * GB),
-                        O(3 * GB + 1), O(4 * GB), O(5 * GB)}
+    [] f = "blen"   -> {N, O(0), O(GB - 1), O(GB), O(GB + 1), O(GB + 2), O(2 * GB), O(3 * GB - 1), O(3 * GB),
+                        O(3 * GB + 1), O(3 * GB + 2), O(4 * GB), O(5 * GB)}     \* + 2: what a parser tolerates as legacy padding
 
 \* reduced sets for triples: unset, just below, lower bound, upper bound, just above
 Vals3(f) ==
@@ -39,7 +39,7 @@ Vals3(f) ==
     [] f = "tscset" -> {N, O(-1), O(0), O(1), O(2), O(3), O(4)}
     [] f = "mod"    -> {"GMSK", "8PSK", "notmod"}
     [] f = "nope"   -> BOOLEAN
-    [] f = "blen"   -> {N, O(GB), O(GB + 1), O(3 * GB), O(5 * GB)}
+    [] f = "blen"   -> {N, O(GB), O(GB + 1), O(GB + 2), O(3 * GB), O(3 * GB + 2), O(5 * GB)}
 
 TxFields == {"ver", "fn", "tn", "pwr", "blen"}
 RxFields == {"ver", "fn", "tn", "rssi", "toa", "ci", "tsc", "tscset", "mod", "nope", "blen"}
